@@ -133,7 +133,9 @@ func sizes(typ *types.Struct, prefix string, base int64, out []st.Field) []st.Fi
 		return out
 	}
 	field := &out[len(out)-1]
-	if field.Size == 0 {
+	if field.Size == 0 && field.End < base+s.Sizeof(typ) {
+		// gc adds a byte after a trailing zero-size field, but only to
+		// structs that are otherwise non-empty.
 		field.Size = 1
 		field.End++
 	}
